@@ -226,6 +226,36 @@ Proof.
     intros (n & H & _). discriminate.
 Qed.
 
+(** ** Exact registry *)
+
+Lemma beqb_true_eq a : forall b, beqb a b = true -> a = b.
+Proof.
+  induction a as [|x a IH]; intros [|y b]; cbn; try discriminate; [reflexivity|].
+  intros H. apply andb_true_iff in H. destruct H as [H1 H2]. apply N.eqb_eq in H1. subst. f_equal. auto.
+Qed.
+
+Lemma reg_exact_none l n : ~ In n (map fst l) -> reg_exact l n = None.
+Proof.
+  induction l as [|[k e] r IH]; intros H; [reflexivity|]. cbn [reg_exact].
+  destruct (beqb n k) eqn:E.
+  - apply beqb_true_eq in E. exfalso. apply H. left. symmetry. exact E.
+  - apply IH. intros Hin. apply H. right. exact Hin.
+Qed.
+
+(** Whatever else is registered - names that differ from it in letter case
+    included - a destination name under which no endpoint registered with
+    exactly these bytes is a name whose endpoint is not connected: the
+    connection is refused, nothing is dialled. *)
+Lemma unconnected_name_never_served_by_a_variant sufs has_home lk l sni d :
+  lk sni = mkLk (Some d) false -> d_home d = false -> d_forward d = [] ->
+  ~ In (d_name d) (map fst l) ->
+  let r := decide is_ip sufs (mkCfg true lk has_home (reg_exact l)) sni in
+  endpoint_dials r = [] /\ served r = false /\ refusal r = true.
+Proof.
+  intros Hl Hh Hf Hn. apply refused_names. right. right. right. exists d. cbn [lookup registry].
+  rewrite Hl. cbn [lk_dest]. repeat split; auto. apply reg_exact_none. exact Hn.
+Qed.
+
 (** ** Histories *)
 
 (** With config.Lookup itself in s.lookup, every dial of every history - any
